@@ -41,7 +41,7 @@ LEVEL = {
     "C14": ("density/log-density/sampler/algebra laws for generated priors and expression trees with an independent "
             "evaluator", "property-based testing with reference evaluator and statistical oracle"),
     "C15": ("grammar-generated HoloPy objects through save/load with constructor-argument equality, full-state equality with a "
-            "freshly built object and text fixpoint; models with generated ties of every kind",
+            "freshly built object and text fixpoint; models with generated ties of every kind; bounded-exhaustive explicit None over every defaulted constructor argument",
             "round-trip property-based testing (grammar-based generation)"),
     "C16": ("round trips through HDF5/TIFF/raster files written per case, averaging and metadata-edit invariants",
             "round-trip property-based testing"),
